@@ -241,3 +241,24 @@ fn c14_r_int_is_numberlike_4() {
     let b = ascii::<4>();
     r_int(&b);
 }
+
+//@ tier: attempt
+//@ mem_gb: 24
+//@ funcs: read::yaml::parse_float, normalise_float, parse_sign, strip
+//@ bounds: every ASCII string of length 5 that starts with a sign and a dot (`+.` / `-.` + 3 symbolic bytes < 0x80) -- the reader-side counterpart of c14_w_signed_dot_family_5
+//@ assume: alloc::fmt::format stubbed (the normalised float TEXT is not the subject)
+//@ asserts: R_float on the signed-dot family: if the real parse_float resolves s to a float then s is number-like
+#[kani::proof]
+#[kani::unwind(8)]
+#[kani::stub(alloc::fmt::format, no_format)]
+fn c14_r_float_signed_dot_family_5() {
+    let b: [u8; 5] = kani::any();
+    kani::assume(b[0] == b'-' || b[0] == b'+');
+    kani::assume(b[1] == b'.');
+    let mut k = 2;
+    while k < 5 {
+        kani::assume(b[k] < 0x80);
+        k += 1;
+    }
+    r_float(&b);
+}
